@@ -808,7 +808,7 @@ def prog_argv(inp, d=None):
         a += ["-b", render_ts(inp["hi"], 0)]
     if inp["summary"]:
         a.append("--summary")
-    return a + [os.path.join(d, s["name"]) for s in inp["sources"]]
+    return a + [prog_path(inp, s, d) for s in inp["sources"]]
 
 
 def prog_date(inp):
@@ -831,14 +831,17 @@ def prog_in_window(inp, t):
 def prog_names(inp, d=None):
     d = d or inp["dir"]
     if inp["fmode"] == "-n":
-        return [s["name"] for s in inp["sources"]]
+        return [os.path.basename(prog_path(inp, s, d)) for s in inp["sources"]]
     if inp["fmode"] == "-p":
-        return [os.path.join(d, s["name"]) for s in inp["sources"]]
+        return [prog_path(inp, s, d) for s in inp["sources"]]
     return ["" for s in inp["sources"]]
 
 
 def prog_expected(inp, d=None):
-    """independent python rendering: (stdout bytes, summary numbers, print order [(src, pos)])"""
+    """independent python rendering: (stdout bytes, summary numbers, print order [(src, pos)]);
+    (None, None, None) for an invocation with sources of other kinds than year-bearing text"""
+    if any(s.get("kind") in ("yearless", "records", "journal", "evtx") for s in inp["sources"]):
+        return None, None, None
     vis = [[(pos, m) for pos, m in enumerate(s["msgs"]) if prog_in_window(inp, m["inst"])] for s in inp["sources"]]
     order = kway_merge([[m["inst"] for _, m in v] for v in vis])
     names = prog_names(inp, d)
@@ -866,7 +869,7 @@ def prog_expected(inp, d=None):
         if last_of_file and not s["final_nl"]:
             out += b"\n"
         insts.append(m["inst"])
-    nums = [len(out), nlines, len(order), (min(insts) // 10**9 if insts else -1), (max(insts) // 10**9 if insts else -1)]
+    nums = [len(out), nlines, len(order), 0, 0, 0, (min(insts) // 10**9 if insts else -1), (max(insts) // 10**9 if insts else -1)]
     return bytes(out), nums, order
 
 
@@ -875,6 +878,7 @@ def prog_summary_nums(stderr):
     p = s4summary.parse(stderr)["program"]
     f, l = p.get("printed_first"), p.get("printed_last")
     return [p.get("printed_bytes", -7), p.get("printed_lines", -7), p.get("printed_syslines", -7),
+            p.get("printed_fixedstruct", -7), p.get("printed_evtx", -7), p.get("printed_journal", -7),
             f.epoch if f else -1, l.epoch if l else -1]
 
 
@@ -897,16 +901,41 @@ def prog_coq_case(inp, stdout, nums):
         "true" if inp["summary"] else "false", coq_optz(inp["lo"]), coq_optz(inp["hi"]))
     fs = []
     tab = {}
+    ytab = {}
     for i, s in enumerate(inp["sources"]):
         nb = names[i].encode()
-        fs.append("(\"%s\", %d, %d, %s, %s)" % (nb.hex(), len(names[i]), len(names[i]),
-                                                "true" if s["container"] == "gz" else "false", hexchunks(s["data"])))
-        for pos, m in enumerate(s["msgs"]):
-            ln = m["lines"][0].encode()
-            whole = pos == len(s["msgs"]) - 1 and len(m["lines"]) == 1 and not s["final_nl"]
-            tab[ln if whole else ln + b"\n"] = m["inst"]
+        kind = s.get("kind")
+        data = s.get("data", b"")
+        ck = "CText"
+        if kind == "yearless":
+            ck = "(CYearless (%d)%%Z (%d)%%Z)" % (s["off"], s["mtime"])
+            for pos, m in enumerate(s["msgs"]):
+                ln = m["lines"][0].encode()
+                whole = pos == len(s["msgs"]) - 1 and len(m["lines"]) == 1 and not s["final_nl"]
+                ytab[ln if whole else ln + b"\n"] = m["ymd"]
+        elif kind == "records":
+            ck = "(CRecords %d \"%s\")" % (s["hint"], s["layout"])
+        elif kind == "evtx":
+            rs = []
+            for (t, text) in (s.get("msgs_probe") or []):
+                keep = prog_in_window(inp, t)
+                rs.append("Some ((%d)%%Z, %s)" % (t, hexchunks(text if keep else b"")))
+            ck = "(CEvtx [%s])" % "; ".join(rs)
+            data = b""
+        elif kind == "journal":
+            es = ["((%d)%%Z, (%d)%%Z, %s)" % (t // 1000, t, hexchunks(text)) for (t, text) in (s.get("msgs_probe") or [])]
+            ck = "(CJournal [%s])" % "; ".join(es)
+            data = b""
+        else:
+            for pos, m in enumerate(s["msgs"]):
+                ln = m["lines"][0].encode()
+                whole = pos == len(s["msgs"]) - 1 and len(m["lines"]) == 1 and not s["final_nl"]
+                tab[ln if whole else ln + b"\n"] = m["inst"]
+        fs.append("(\"%s\", %d, %d, %s, %s, %s)" % (nb.hex(), len(names[i]), len(names[i]),
+                                                     "true" if s["container"] == "gz" else "false", hexchunks(data), ck))
+    ytabs = "[" + "; ".join("(\"%s\", ((%d)%%Z, (%d)%%Z, (%d)%%Z))" % ((k.hex(),) + v) for k, v in ytab.items()) + "]"
     tabs = "[" + "; ".join("(\"%s\", (%d)%%Z)" % (k.hex(), v) for k, v in tab.items()) + "]"
-    return "(%s, [%s], %s, %d, %s, [%s])" % (o, "; ".join(fs), tabs, inp["bs"] or 65536, hexchunks(stdout),
+    return "(%s, [%s], %s, %s, %d, %s, [%s])" % (o, "; ".join(fs), tabs, ytabs, inp["bs"] or 65536, hexchunks(stdout),
                                             "; ".join("(%d)%%Z" % x for x in (nums or [])))
 
 
@@ -934,7 +963,7 @@ def prog_eval(workdir, fn, cases, case_type, nshards=None):
 def prog_describe(inp):
     return dict(argv=prog_argv(inp), env=prog_env(inp),
                 window_ns=[inp["lo"], inp["hi"]], blocksz=inp["bs"] or 65536,
-                sources=[dict(name=s["name"], container=s["container"], messages=len(s["msgs"]), final_newline=s["final_nl"],
+                sources=[dict(name=s["name"], kind=s.get("kind", "text"), container=s["container"], messages=len(s["msgs"]), final_newline=s.get("final_nl"),
                               in_window=sum(1 for m in s["msgs"] if prog_in_window(inp, m["inst"])),
                               multi_line=sum(1 for m in s["msgs"] if m["cont"])) for s in inp["sources"]])
 
@@ -949,8 +978,13 @@ def prog_save_failure(prop, seed, inp, plan, n, extra=None):
     ind = os.path.join(dest, "in")
     shutil.copytree(inp["dir"], ind)
     exp, nums, _ = prog_expected(inp, ind)
-    with open(os.path.join(dest, "EXPECTED_STDOUT"), "wb") as f:
-        f.write(exp)
+    if exp is None:                    # mixed kinds: the expected output is what the unchanged tree prints (recorded by the caller)
+        exp = (extra or {}).get("expected_stdout_bytes")
+    if exp is not None:
+        with open(os.path.join(dest, "EXPECTED_STDOUT"), "wb") as f:
+            f.write(exp)
+    if extra and "expected_stdout_bytes" in extra:
+        extra = {k: v for k, v in extra.items() if k != "expected_stdout_bytes"}
     c = dict(dir=dest, argv=prog_argv(inp, ind), plan=plan, env=prog_env(inp), describe=prog_describe(inp),
              expect_summary=(nums if inp["summary"] else None), whole_invocation=True)
     if extra:
@@ -964,7 +998,11 @@ def prog_replay_one(c):
     if c.get("plan"):
         env["S4_VERIF_PLAN"] = c["plan"]
     rc, out, err = vlib.run_s4(c["argv"], timeout=60, env=env)
-    expb = open(os.path.join(c["dir"], "EXPECTED_STDOUT"), "rb").read()
+    pe = os.path.join(c["dir"], "EXPECTED_STDOUT")
+    if not os.path.exists(pe):
+        print("replay whole invocation rc=%d: no expected stdout recorded (mixed source kinds: evaluate Corr/C01p.spec_bad on the case); argv=%s" % (rc, " ".join(c["argv"])))
+        return rc != 0
+    expb = open(pe, "rb").read()
     same = rc == 0 and out == expb
     what = "stdout %s expected (%d vs %d bytes)" % ("==" if same else "!=", len(out), len(expb))
     if same and c.get("expect_summary"):
@@ -973,3 +1011,205 @@ def prog_replay_one(c):
         what += "; summary [bytes, lines, syslines, first, last] %s expected (%r vs %r)" % ("==" if same else "!=", got, c["expect_summary"])
     print("replay whole invocation rc=%d %s  argv=%s" % (rc, what, " ".join(c["argv"])))
     return not same
+
+
+# ----------------------------------------------------------------------------- whole invocations, MIXED source kinds
+# (second stage of work package H) extra sources next to the text files of prog_input:
+#   records   utmp / lastlog files synthesised by checks/c08_util.py (records in ANY stored order, equal
+#             times, a null record, an invalid 0xFF record) and the wtmp fixture of /repo/logs
+#   yearless  syslog notation without a year ("Dec 31 23:59:58 host ..."), file mtime set; crossing a
+#             year boundary
+#   journal   the journal fixture of /repo/logs (entries = what a probe run of s4 on that file alone prints)
+#   evtx      the evtx fixture, always with a window that selects at most a dozen events
+# The python rendering is not used for these invocations (prog_expected returns None): the verdict is
+# Program.program_spec / program_m evaluated by coqc.
+MONTHS = ["Jan", "Feb", "Mar", "Apr", "May", "Jun", "Jul", "Aug", "Sep", "Oct", "Nov", "Dec"]
+RECORD_LAYOUTS = [("Fs_Linux_x86_Utmpx", ["wtmp", "utmp", "btmp", "utmpx"]), ("Fs_Linux_x86_Lastlog", ["lastlog"])]
+_PROBE = {}
+
+
+def probe_fixture(path, tz="UTC"):
+    """the messages of one evtx / journal file as s4 prints them alone: [(instant ns, text bytes)].
+    The text of a journal entry (`short` output) shows the local time: probed under the TZ of the invocation."""
+    key = (path, tz)
+    if key in _PROBE:
+        return _PROBE[key]
+    path_, path = path, key
+    rc, out, err = vlib.run_s4(["--color", "never", "-u", "-d", "%s%.9f", "--separator=" + SEP_ARG, path_], timeout=120, env={"TZ": tz})
+    res = []
+    if rc == 0:
+        chunks = out.split(SEP_B)
+        for ch in chunks[:-1]:
+            text = bytearray()
+            inst = None
+            for ln in ch.split(b"\n"):
+                if ln == b"" :
+                    continue
+                m = DT_RE.match(ln)
+                if not m:
+                    res = None
+                    break
+                if inst is None:
+                    inst = int(m.group(1)) * 10**9 + int(m.group(2))
+                text += ln[m.end():] + b"\n"
+            if res is None:
+                break
+            res.append((inst, bytes(text)))
+    else:
+        res = None
+    _PROBE[path] = res
+    return res
+
+
+def yearless_source(rng, sid, off_s):
+    """syslog lines without a year around 2019-12-31 / 2020-01-01 (local time of the fallback zone off_s)"""
+    n = rng.choice([2, 3, 5, 8, 12])
+    t = EPOCH0 - rng.choice([43210, 43205, 86400 + 30, 3 * 86400, 40 * 86400])      # local seconds of the first message
+    msgs = []
+    for k in range(n):
+        t += rng.choice([0, 0, 1, 1, 2, 59, 3600, 43200, 86400])
+        loc = datetime.datetime(1970, 1, 1) + datetime.timedelta(seconds=t)
+        head = "%s %2d %02d:%02d:%02d host s%02dm%04d %s" % (MONTHS[loc.month - 1], loc.day, loc.hour, loc.minute, loc.second, sid, k, WORDS[(sid + k) % len(WORDS)])
+        cont = 0 if rng.random() < 0.7 else rng.randrange(1, 3)
+        lines = [head] + ["    continued %s" % WORDS[(k + c) % len(WORDS)] for c in range(cont)]
+        msgs.append(dict(inst=(t - off_s) * 10**9, lines=lines, cont=cont, ymd=(loc.month, loc.day, (loc.hour * 3600 + loc.minute * 60 + loc.second) * 10**9)))
+    last_local = t
+    mtime = last_local - off_s + rng.choice([0, 5, 3600, 86400, 5 * 86400])
+    return dict(sid=sid, kind="yearless", container=rng.choice(["plain", "plain", "gz"]), msgs=msgs, final_nl=rng.random() < 0.6,
+                mtime=mtime, off=off_s, name="sys%02d.log" % sid)
+
+
+def records_source(rng, sid):
+    import c08_util as U
+    lays, _ = U.ref_layouts()
+    lname, names = rng.choice(RECORD_LAYOUTS)
+    lay = lays[lname]
+    n = rng.choice([1, 2, 3, 5, 8])
+    recs = []
+    for k in range(n):
+        r = rng.random()
+        sec = EPOCH0 + rng.choice([0, 0, 1, 1, 2, 60, -1])
+        usec = rng.choice([0, 0, 1, 500, 999999]) if lay["usec_len"] else 0
+        if r < 0.1:
+            recs.append(((0, 0), "zero"))
+        elif r < 0.17:
+            recs.append(((0, 0), "ff"))
+        else:
+            recs.append(((sec, usec), None))
+    if not any(nk is None for _, nk in recs):      # a file of null / invalid entries only has no detectable layout
+        recs[rng.randrange(len(recs))] = ((EPOCH0 + 1, 0), None)
+    fname = rng.choice(names)
+    return dict(sid=sid, kind="records", container="plain", msgs=[], name=fname if sid == 0 else "r%d-%s" % (sid, fname),
+                layout=lname, hint=U.KINDS.index(U.NAME_KIND[fname]), data=U.build_file(lay, recs),
+                insts=[sec * 10**9 + usec * 1000 for (sec, usec), nk in recs if nk is None], fname=fname)
+
+
+def prog_input_mixed(rng, idx, scratch):
+    inp = prog_input(rng, idx, scratch)
+    off_s = inp["zone"][1] if (inp["zone"] and inp["zone"][0] == "-l") else 0
+    fams = fixture_families()
+    extra = []
+    nsid = len(inp["sources"])
+    for _ in range(rng.choice([1, 1, 2, 3])):
+        r = rng.random()
+        if r < 0.35:
+            extra.append(records_source(rng, nsid))
+        elif r < 0.65:
+            extra.append(yearless_source(rng, nsid, off_s))
+        elif r < 0.8 and "journal" in fams:
+            p = rng.choice(fams["journal"])
+            extra.append(dict(sid=nsid, kind="journal", container="fixture", msgs=[], path=p, name=os.path.basename(p)))
+        elif r < 0.9 and "evtx" in fams:
+            p = rng.choice(fams["evtx"])
+            extra.append(dict(sid=nsid, kind="evtx", container="fixture", msgs=[], path=p, name=os.path.basename(p)))
+        elif "utmp" in fams:
+            p = [x for x in fams["utmp"] if x.endswith(".wtmp")]
+            if p:
+                extra.append(dict(sid=nsid, kind="records", container="plain", msgs=[], name="fx%d.wtmp" % nsid, layout="Fs_Linux_x86_Utmpx",
+                                  hint=4, data=open(p[0], "rb").read(), insts=[], fname="wtmp"))
+        nsid += 1
+    if rng.random() < 0.25:
+        inp["sources"] = []                        # no year-bearing text file at all
+    d = inp["dir"]
+    for s in extra:
+        if s["kind"] == "records":
+            # the name selects the reader (C16): keep the system name as the file name inside an own directory
+            sub = os.path.join(d, "rec%d" % s["sid"])
+            os.makedirs(sub, exist_ok=True)
+            s["relname"] = os.path.join("rec%d" % s["sid"], s["fname"])
+            s["name"] = s["fname"]
+            with open(os.path.join(d, s["relname"]), "wb") as f:
+                f.write(s["data"])
+        elif s["kind"] == "yearless":
+            lines = [ln for m in s["msgs"] for ln in m["lines"]]
+            data = "\n".join(lines).encode() + (b"\n" if s["final_nl"] else b"")
+            s["data"] = data
+            if s["container"] == "gz":
+                s["name"] += ".gz"
+                with gzip.GzipFile(os.path.join(d, s["name"]), "wb", mtime=s["mtime"]) as f:
+                    f.write(data)
+            else:
+                with open(os.path.join(d, s["name"]), "wb") as f:
+                    f.write(data)
+            os.utime(os.path.join(d, s["name"]), (s["mtime"], s["mtime"]))
+            s["relname"] = s["name"]
+        else:
+            s["msgs_probe"] = probe_fixture(s["path"], prog_env(inp)["TZ"])
+            s["relname"] = None
+    pos = list(range(len(inp["sources"]) + len(extra)))
+    allsrc = inp["sources"] + extra
+    rng.shuffle(allsrc)
+    inp["sources"] = allsrc
+    inp["mixed"] = True
+    # the window: around the instants of generated sources; an event log is always windowed to few events
+    ev = [s for s in allsrc if s["kind"] == "evtx" and s.get("msgs_probe")]
+    if ev:
+        ts = sorted(t for t, _ in ev[0]["msgs_probe"])
+        if rng.random() < 0.4:
+            # from before everything up to one of the first events
+            hi = (ts[rng.randrange(0, min(8, len(ts)))] // 1000 + rng.choice([0, 1])) * 1000
+            lo = min([ts[0]] + [m["inst"] for s in allsrc for m in s["msgs"]] + [t for s in allsrc for t in s.get("insts", [])])
+            lo = (lo // 1000) * 1000 if rng.random() < 0.7 else None
+        else:
+            k = rng.randrange(0, max(1, len(ts) - 8))
+            lo = (ts[k] // 1000) * 1000
+            hi = (ts[min(len(ts) - 1, k + rng.randrange(0, 7))] // 1000 + 1) * 1000
+            while sum(1 for t in ts if lo <= t <= hi) > 12 and hi > lo:
+                hi = lo + (hi - lo) // 2
+        inp["lo"], inp["hi"] = lo, hi
+    else:
+        allinst = sorted(set([m["inst"] for s in allsrc for m in s["msgs"]] + [t for s in allsrc for t in s.get("insts", [])]))
+        inp["lo"] = inp["hi"] = None
+        if allinst and rng.random() < 0.5:
+            def bound():
+                return (rng.choice(allinst) // 1000 + rng.choice([0, 0, 0, 1, -1, 1000000, -1000000])) * 1000
+            if rng.random() < 0.7:
+                inp["lo"] = bound()
+            if inp["lo"] is None or rng.random() < 0.6:
+                inp["hi"] = bound()
+            if inp["lo"] is not None and inp["hi"] is not None and inp["hi"] < inp["lo"]:
+                inp["lo"], inp["hi"] = inp["hi"], inp["lo"]
+    return inp
+
+
+def prog_path(inp, s, d=None):
+    d = d or inp["dir"]
+    if s.get("path"):
+        return s["path"]
+    return os.path.join(d, s.get("relname") or s["name"])
+
+
+def prog_spec_stdout(workdir, case):
+    """stdout of Program.program_spec for one Corr/C01p case (bytes), or None"""
+    import re
+    hdr = (vlib.COQ_PRINT_HDR + "From Coq Require Import String List ZArith NArith.\nImport ListNotations.\n"
+           "From S4.Corr Require Import C01p.\nOpen Scope N_scope.\nOpen Scope string_scope.\n")
+    text = hdr + "Definition c : spec_case := %s.\nEval vm_compute in (spec_stdout c).\n" % case
+    res = vlib.coq_eval_shards(workdir, [text])
+    rc, out = res[0]
+    if rc != 0:
+        return None
+    m = re.search(r"=\s*(\[.*?\])\s*:\s*\S*(?:bytes|list)", out, flags=re.S)
+    if not m:
+        return None
+    return bytes(int(x) for x in re.findall(r"(\d+)%N", m.group(1))) if "%N" in m.group(1) else bytes(int(x) for x in re.findall(r"\d+", m.group(1)))
